@@ -127,6 +127,34 @@ func (wc *WSConn) Send(raw string) error {
 	return err
 }
 
+// SendFragmented writes one WebSocket text message as several frames (RFC 6455 fragmentation).
+func (wc *WSConn) SendFragmented(raw string, parts int) error {
+	if wc.Dead {
+		return errors.New("dead")
+	}
+	w, err := wc.c.Writer(context.Background(), websocket.MessageText)
+	if err != nil {
+		return err
+	}
+	b := []byte(raw)
+	if parts < 2 {
+		parts = 2
+	}
+	step := (len(b) + parts - 1) / parts
+	for i := 0; i < len(b); i += step {
+		j := i + step
+		if j > len(b) {
+			j = len(b)
+		}
+		if _, err := w.Write(b[i:j]); err != nil {
+			return err
+		}
+	}
+	err = w.Close()
+	wc.S.e.Logf("srv.send", "%s (in %d fragments) %s", wc.name(), parts, clip(raw, 120))
+	return err
+}
+
 func (wc *WSConn) loop() {
 	e := wc.S.e
 	for {
